@@ -283,6 +283,16 @@ def _check_main(ctx, res) -> None:
         upd = lambda n: n.kind == "stmt" and isinstance(n.ast, ast.Assign) and isinstance(n.ast.targets[0], ast.Name) \
             and n.ast.targets[0].id in marks and isinstance(n.ast.value, ast.Name) and n.ast.value.id == E
         ok2 = bool(body_entry) and cfg.must_pass_through(body_entry[0], a.id, upd)
+        # the watermark is the end of the last REPLACED match: an update on a path of the iteration that does not replace
+        # the match (the skipped, overlapping one) moves it past a match that overlaps nothing that was rewritten
+        for u in [n for n in cfg.nodes if upd(n)]:
+            after = cfg.reachable(u.id, avoid_nodes=[a.id])
+            skips = head.id in after and u.id != a.id
+            before = bool(body_entry) and cfg.must_pass_through(body_entry[0], u.id, lambda n: n.id == a.id)
+            res.add("R19.4", "get_changed|watermark-only-for-replaced", not skips or before, f"{gch.unit.rel}:{u.lineno}",
+                    "the watermark is advanced only in an iteration that replaces the match" if not skips or before else
+                    f"`{ast.unparse(u.ast)}` also runs in an iteration that skips the match: a skipped (overlapping) match moves the watermark, and the next match, which overlaps "
+                    "nothing that was rewritten, is left unreplaced", function=gch.qualname)
         res.add("R19.4", "get_changed|add_change", ok and ok2, f"{gch.unit.rel}:{a.lineno}",
                 "an overlapping statement match is skipped before add_change and last_end is advanced for every replaced match" if ok and ok2 else
                 ("an overlapping statement match (start < last_end) can still reach add_change" if not ok else
